@@ -86,6 +86,7 @@ def grid_compare(rep, rule, key, label, outcomes, grids, oracle,
         return False
     syms = list(grids)
     bad = None
+    more = []
     n = 0
     sigs = set()
     for vals in itertools.product(*[list(grids[s]) for s in syms]):
@@ -111,6 +112,8 @@ def grid_compare(rep, rule, key, label, outcomes, grids, oracle,
         if not same_outcome(got, want, value_eq):
             if bad is None:
                 bad = (named, got, want)
+            else:
+                more.append(named)
     for s in sigs:
         rep.case({'case': label, 'outcome': s}, (key, label, s))
     rep.evaluations += max(n - len(sigs), 0)
@@ -120,7 +123,10 @@ def grid_compare(rep, rule, key, label, outcomes, grids, oracle,
         return True
     rep.check(rule, key, False,
               '%s: for input %s the code yields %s but the property '
-              'requires %s' % (label, bad[0], _sig(bad[1]), _sig(bad[2])),
+              'requires %s%s' % (label, bad[0], _sig(bad[1]), _sig(bad[2]),
+                                 '' if not more else
+                                 ' (%d further disagreeing valuations, e.g. %s)'
+                                 % (len(more), more[:6])),
               where, case={'label': label, 'input': bad[0]})
     return False
 
